@@ -39,9 +39,9 @@ func c20OID(s string) dictionary.OID {
 	}
 	var o dictionary.OID
 	for _, c := range strings.Split(s, ".") {
-		n, err := strconv.ParseUint(c, 10, 31)
+		n, err := strconv.ParseUint(c, 10, 62)
 		if err != nil {
-			panic("bad oid in case line: " + s)
+			panic(badCase("bad oid in case line: " + s))
 		}
 		o = append(o, int(n))
 	}
@@ -64,7 +64,7 @@ func c20BoolFlag(s string) dictionary.BoolFlag {
 	case "1":
 		return dictionary.BoolFlag{Bool: true, Valid: true}
 	}
-	panic("bad bool flag in case line: " + s)
+	panic(badCase("bad bool flag in case line: " + s))
 }
 
 func c20IntPtr(s string) *int {
@@ -78,7 +78,7 @@ func c20IntPtr(s string) *int {
 func c20Cap(s string) int {
 	n := atoi(s)
 	if n < 0 || n > 64 {
-		panic("bad capacity in case line: " + s)
+		panic(badCase("bad capacity in case line: " + s))
 	}
 	return n
 }
@@ -86,7 +86,7 @@ func c20Cap(s string) int {
 func c20Nat(s string) uint64 {
 	v, err := strconv.ParseUint(s, 10, 64)
 	if err != nil {
-		panic("bad uint in case line: " + s)
+		panic(badCase("bad uint in case line: " + s))
 	}
 	return v
 }
@@ -131,7 +131,7 @@ func buildDict(s string) *dictionary.Dictionary {
 		case f[0] == "a" && (len(f) == 4 || len(f) == 8):
 			t := atoi(f[3])
 			if t < 1 || t > 17 {
-				panic("bad attribute type in case line: " + item)
+				panic(badCase("bad attribute type in case line: " + item))
 			}
 			a := &dictionary.Attribute{Name: string(unhx(f[1])), OID: c20OID(f[2]), Type: dictionary.AttributeType(t)}
 			if len(f) == 8 {
@@ -162,7 +162,7 @@ func buildDict(s string) *dictionary.Dictionary {
 		case f[0] == "C" && len(f) == 4:
 			xa, xv, xV = c20Cap(f[1]), c20Cap(f[2]), c20Cap(f[3])
 		default:
-			panic("bad item in case line: " + item)
+			panic(badCase("bad item in case line: " + item))
 		}
 	}
 	d.Attributes = attrSlice(attrs, xa)
